@@ -13,6 +13,35 @@ CREATE = r"((^|::)create_file|File::create|fs::File::create)$"
 WRITE = r"(StoredStatus::write|StoredPointHeader::write|StoredManifest::write|StoredObject::write|write_all|fs::write|(^|::)write_file)$"
 RENAME = r"(NamedTempFile::persist|fs::rename|persist)$"
 TMP = r"(Store::tmp_file|NamedTempFile::new|tempfile)$"
+REMOVE = r"((^|::)remove_file|fs::remove_file)$"
+
+
+def origin_ident(p, val):
+    """Identity of the place a path argument was derived from: Deref / AsRef results are traced back through the
+    engine's memo of pure pointer functions to the reference they were computed from."""
+    cur = mir._ident(val)
+    for _ in range(4):
+        leaf = val.get(())
+        if not isinstance(leaf, mir.Opq):
+            break
+        src = None
+        for k, v in p.memo.items():
+            if isinstance(k, tuple) and len(k) == 2 and k[0] == "deref" and isinstance(v, dict) and v.get(()) is leaf:
+                src = k[1]
+                break
+        if src is None:
+            break
+        cur = src
+        # the source identity is itself the identity of a value; stop when it is not an opaque deref result
+        nxt = None
+        for k, v in p.memo.items():
+            if isinstance(k, tuple) and len(k) == 2 and k[0] == "deref" and mir._ident(v) == src:
+                nxt = v
+                break
+        if nxt is None:
+            break
+        val = nxt
+    return cur
 
 
 def writer_ops(E, body, inline=()):
@@ -35,6 +64,15 @@ def writer_ops(E, body, inline=()):
                 ops.append("rename")
             elif re.search(WRITE, e.name):
                 ops.append("write_all" if re.search(r"(fs::write|(^|::)write_file)$", e.name) else "write")
+            elif re.search(REMOVE, e.name):
+                ops.append(("remove", origin_ident(p, e.args[0]) if e.args else None))
+        # an unlink counts when it hits the path the new version is later renamed to (or an unknown path)
+        target = None
+        for e in p.events:
+            if e.kind == "call" and re.search(RENAME, e.name) and e.args:
+                target = origin_ident(p, e.args[-1])
+        ops = [("remove" if (o[1] is None or target is None or o[1] == target) else None) if isinstance(o, tuple) else o for o in ops]
+        ops = [o for o in ops if o is not None]
         score = (1 if "rename" in ops else 0, len(ops))
         if best is None or score > best_score:
             best, best_score = ops, score
@@ -43,7 +81,7 @@ def writer_ops(E, body, inline=()):
 
 def crash_states(ops):
     """z3 model of the visible file after a crash at a symbolic point k of the operation list.
-    Returns (k, state expr: 0 old, 1 partial (strict prefix incl. empty), 2 new), constraints."""
+    Returns (k, state expr: 0 old, 1 partial (strict prefix incl. empty), 2 new, 3 missing), constraints."""
     k = z3.Int("crash_point")
     n = len(ops)
     cons = [k >= 0, k <= n]
@@ -56,6 +94,8 @@ def crash_states(ops):
         if uses_tmp:
             if op == "rename":
                 state = z3.If(done, z3.IntVal(2), state)
+            elif op == "remove":
+                state = z3.If(done, z3.IntVal(3), state)      # the visible file is gone until the rename
         else:
             if op == "create":
                 state = z3.If(done, z3.IntVal(1), state)
@@ -187,12 +227,32 @@ def run(res, tier):
                "the stored point is visible in a partially written state")
     if fn:
         res.violation("crash:stored-point-update-not-atomic", "a crash during a publication point update leaves a partially written stored point", fn)
+    # a stored point must never be missing after a crash: old or new version (StoredPoint::open would silently start an
+    # empty, never-successful point and the previous version of the whole subtree is lost)
+    for nm in ("stored point, update (StoredPoint::_update)", "stored point, reject (StoredPoint::reject)"):
+        k, state, cons = crash_states(wops[nm])
+        sv = z3.Solver()
+        sv.add(cons)
+        sv.add(state == 3)
+        total += 1
+        res.evaluations += 1
+        if sv.check() == z3.sat:
+            kk = sv.model().eval(k, model_completion=True).as_long()
+            d = os.path.join(mprop.VERIF, "replays", res.prop)
+            os.makedirs(d, exist_ok=True)
+            fn = os.path.join(d, re.sub(r"\W+", "_", nm)[:40] + ".missing.crash.json")
+            with open(fn, "w") as f:
+                json.dump({"property": res.prop, "file": nm, "operations": wops[nm], "crash_after_operation_index": kk - 1,
+                           "left_on_disk": "no file at the stored point's path (unlinked, new version not yet renamed into place)"}, f, indent=1)
+            res.violation("crash:stored-point-missing-after-crash",
+                          "%s unlinks the stored point before the new version is renamed into place: a crash in between "
+                          "leaves neither the previous nor the new version (operations %s)" % (nm, wops[nm]), fn)
     ta_ops = wops["trust anchor copy (store::Run::update_ta)"]
     query("trust anchor copy (store::Run::update_ta)", ta_ops, False, "")
     res.distinct += total + 3
     res.bounds.append("crash point: any position in the extracted file-operation list of each writer; the file visible to the "
                       "next start is old / strict prefix / new according to: create truncates, writes land in order, "
-                      "persist (rename) is atomic")
+                      "persist (rename) is atomic, an unlink of the rename target makes the file absent until the rename")
     res.assumptions += ["file-system axioms as stated; directory operations and cleanup are outside",
                         "a truncated trust-anchor copy fails to decode and is treated as absent (engine::Run::load_ta, C10)",
                         "a truncated stored-point file is discarded and recreated when its header does not parse (checked on the MIR of StoredPoint::open)"]
